@@ -179,6 +179,17 @@ fn history(req: &json::JsonValue) -> json::JsonValue {
                 let after = vm.execute_program(mem2).is_ok();
                 (e && before != after, format!("failing set_program (Err: {e}); probe run before: ok={before}, after: ok={after}"))
             }
+            "metadata-buffer-not-fresh" => {
+                // run a program on a packet (the wrapper stores the packet addresses at 0x40 / 0x50), load another program with other offsets, read the old slot
+                let probe: &'static [u8] = &[0x79, 0x10, 0x40, 0, 0, 0, 0, 0, 0x95, 0, 0, 0, 0, 0, 0, 0];      // ldxdw r0, [r1+0x40]; exit
+                let mut vm = rbpf::EbpfVmFixedMbuff::new(Some(p1), 0x40, 0x50).unwrap();
+                let mem: &'static mut [u8] = Box::leak(vec![0u8; 16].into_boxed_slice());
+                let mem2: &'static mut [u8] = Box::leak(vec![0u8; 16].into_boxed_slice());
+                let first = vm.execute_program(mem).map_err(|e| crate::estr(&e));
+                vm.set_program(probe, 0x60, 0x70).unwrap();
+                let v = vm.execute_program(mem2).map_err(|e| crate::estr(&e));
+                (v != Ok(0), format!("first run {first:?}; after set_program with offsets (0x60, 0x70) the new program reads {v:x?} at the old data slot 0x40 (a fresh VM gives 0)"))
+            }
             _ => (false, "unsupported".into()),
         }
     });
